@@ -442,3 +442,37 @@ Proof.
   exists {| o_val := VScal SNone; o_key := []; o_results_map := None; o_context := Some 1; o_result_meta := None;
             o_result := None; o_derived := None; o_has_ctx_attrs := true |}. discriminate.
 Qed.
+
+(* ------------------------------------------------------------------ the guard [no_reserved] follows from the class environment *)
+(* no task class declares a parameter called _is_task or __class__ (labtech reserves the former, the latter is not a legal
+   dataclass field) *)
+Definition env_ok (e : env) : bool :=
+  forallb (fun cf => negb (smem k_is_task (snd cf)) && negb (smem k_class (snd cf))) (task_classes e).
+
+Lemma alookup_In_pair {V} (l : list (str * V)) k v : alookup l k = Some v -> In (k, v) l.
+Proof.
+  induction l as [|[k' v'] l IH]; cbn [alookup]; [discriminate|].
+  destruct (str_eqb k k') eqn:E; [|intros H; right; now apply IH].
+  apply str_eqb_eq in E. subst k'. intros [= ->]. now left.
+Qed.
+
+Lemma has_key_smem (k : str) (fs : list (str * value)) : has_key k fs = smem k (map fst fs).
+Proof. unfold has_key, smem. induction fs as [|[a x] l IH]; cbn [existsb map fst]; [reflexivity|]. now rewrite IH. Qed.
+
+Theorem wf_env_no_reserved e v : env_ok e = true -> wf_env e v = true -> no_reserved v = true.
+Proof.
+  intros He. induction v as [s|l IH|kvs IH|c fs IH] using value_ind'; intros Hw; cbn [no_reserved].
+  - reflexivity.
+  - cbn [wf_env] in Hw. rewrite forallb_forall in *. intros x Hx. rewrite Forall_forall in IH. apply IH; auto.
+  - cbn [wf_env] in Hw. rewrite forallb_forall in *. intros [k x] Hx. rewrite Forall_forall in IH. apply (IH (k, x) Hx). exact (Hw (k, x) Hx).
+  - cbn [wf_env] in Hw. apply andb_true_iff in Hw. destruct Hw as [Hw1 Hw2].
+    destruct (alookup (task_classes e) c) as [fnames|] eqn:Ec; [|discriminate].
+    apply andb_true_iff in Hw1. destruct Hw1 as [Hf _]. apply strs_eqb_eq in Hf.
+    unfold env_ok in He. rewrite forallb_forall in He. specialize (He (c, fnames) (alookup_In_pair _ _ _ Ec)). cbn [snd] in He.
+    apply andb_true_iff in He. destruct He as [H1 H2].
+    rewrite !has_key_smem, Hf, H1, H2. cbn [andb].
+    rewrite forallb_forall in *. intros [k x] Hx. rewrite Forall_forall in IH. apply (IH (k, x) Hx). exact (Hw2 (k, x) Hx).
+Qed.
+
+Corollary deser_ser_env e v : env_ok e = true -> wf_env e v = true -> deser DRecursive e (ser v) = Some v.
+Proof. intros He Hw. apply deser_ser; [exact Hw|exact (wf_env_no_reserved e v He Hw)]. Qed.
